@@ -51,6 +51,7 @@ def labelP : P Label := do
   | "cbin" => do let s ← nat; let a ← nat; let t ← nat; pure (.cbIn s a t)
   | "cbout" => do let s ← nat; let a ← nat; let t ← nat; pure (.cbOut s a t)
   | "env" => pure .envMove
+  | "poll" => pure .poll
   | "verdict" => do let b ← bool; let a ← nat; let p ← nat; let h ← nat; pure (.verdict b a p h)
   | "other" => pure .other
   | _ => fail
